@@ -12,6 +12,7 @@ theorems of `Proofs/FilterSplit.lean` re-exported below.
 -/
 import RioModel.Proofs.FilterText
 import RioModel.Proofs.FilterTotal
+import RioModel.Proofs.FilterPipe
 import RioModel.Model.FilterHtml
 set_option linter.unusedSimpArgs false
 set_option linter.unusedVariables false
@@ -151,6 +152,33 @@ theorem chunk_invariant_partial (tk : Tokenize) (ev : Bytes → Bytes → Bool) 
       injection ht with ht
       have hs : seqRun tk ev s [cs.flatten] = some (sb, ob) := by simp [seqRun, hf]
       rw [run_single_html tk ev codec [cs.flatten] s sb ob hs, ht]
+
+/-- **Chunk invariance at safe cuts for a chain of any number of html and text filters.**  The chain is a pipeline:
+each stage receives the NON-EMPTY outputs of the previous one (the `break` of `do_filter`) and, at end of stream, what
+the previous stage emits at end as one piece.  If no call fails and every stage is safe (`SafeG`: `SafeRun` for each
+html stage on the pieces it actually receives, nothing for text stages) both in the run on the schedule `cs` and in the
+run on the single chunk, the two concatenated outputs are equal.  (`SafeG` is executable: `safeGB`.) -/
+theorem chain_chunk_invariant_partial (tk : Tokenize) (ev : Bytes → Bytes → Bool) (codec : Codec D E)
+    (items : List (Stage D E)) (hp : AllPlain items) (cs : List Bytes) (hne : cs ≠ [])
+    (hsafe : SafeG tk ev codec items cs none) (hsafe1 : SafeG tk ev codec items [cs.flatten] none)
+    (hok : runG tk ev codec items cs none ≠ none) (hok1 : runG tk ev codec items [cs.flatten] none ≠ none) :
+    ({ items := items } : Chain D E).run tk ev codec cs =
+      ({ items := items } : Chain D E).run tk ev codec [cs.flatten] := by
+  cases h : runG tk ev codec items cs none with
+  | none => exact absurd h hok
+  | some out =>
+    cases h1 : runG tk ev codec items [cs.flatten] none with
+    | none => exact absurd h1 hok1
+    | some out1 =>
+      rw [run_of_runG tk ev codec cs items out h, run_of_runG tk ev codec [cs.flatten] items out1 h1]
+      exact runG_stream tk ev codec items cs none [cs.flatten] none out out1 hp (by simp)
+        (Or.inl ⟨by simpa using hne, by simp⟩) hsafe hsafe1 h h1
+
+/-- the Boolean evaluated by the driver implies the hypothesis -/
+theorem safeGB_implies (tk : Tokenize) (ev : Bytes → Bytes → Bool) (codec : Codec D E)
+    (items : List (Stage D E)) (ps : List Bytes) (fin : Option Bytes)
+    (h : safeGB tk ev codec items ps fin = true) : SafeG tk ev codec items ps fin :=
+  safeGB_sound tk ev codec items ps fin h
 
 /-- the Boolean evaluated by the driver implies the hypothesis -/
 theorem safeRunB_implies (tk : Tokenize) (ev : Bytes → Bytes → Bool) (s : HtmlSt) (cs : List Bytes)
